@@ -19,17 +19,23 @@ E.g. `v = "a.b"`, `L = ".nc"` is fine; `v = "a.nc"`, `L = ".nc"` is not. -/
 def NoEarly (v L : List Char) : Prop :=
   ∀ k, k < v.length → L.isPrefixOf ((v ++ L).drop k) = false
 
-/-- the exact condition under which the placeholder regex `r`, written with the value `v` and
-followed by the literal text `L`, gives `v` back -/
-def ValueOK : URegex → List Char → List Char → Prop
-  | .alt ws, v, L => v ∈ ws ∧
+/-- a lazy item is safe when the following literal text cannot be found early, or when it is
+the very last token of the template (then `$` forces it to take the whole rest) -/
+def LazyOK (v L : List Char) (atEnd : Bool) : Prop := NoEarly v L ∨ atEnd = true
+
+/-- a SUFFICIENT condition (decidable) under which the placeholder regex `r`, written with the
+value `v`, followed by the literal text `L` (`atEnd`: nothing at all follows), gives `v` back.
+It is not necessary: e.g. backtracking can still recover a value list whose words contain the
+following character. -/
+def ValueOK : URegex → List Char → List Char → Bool → Prop
+  | .alt ws, v, L, _ => v ∈ ws ∧
       match L with
       | c0 :: _ => ∀ w ∈ ws, c0 ∉ w          -- first following character occurs in no value
       | [] => False
-  | .digits k, v, _ => v.length = k ∧ v.all isDigit = true
-  | .lazyPlus, v, L => 1 ≤ v.length ∧ (∀ c ∈ v, c ≠ '\n') ∧ NoEarly v L
-  | .lazyStar, v, L => (∀ c ∈ v, c ≠ '\n') ∧ NoEarly v L
-  | .cls rs q, v, L => (∀ c ∈ v, inCls rs c = true) ∧
+  | .digits k, v, _, _ => v.length = k ∧ v.all isDigit = true
+  | .lazyPlus, v, L, atEnd => 1 ≤ v.length ∧ (∀ c ∈ v, c ≠ '\n') ∧ LazyOK v L atEnd
+  | .lazyStar, v, L, atEnd => (∀ c ∈ v, c ≠ '\n') ∧ LazyOK v L atEnd
+  | .cls rs q, v, L, _ => (∀ c ∈ v, inCls rs c = true) ∧
       (match L with
         | c0 :: _ => inCls rs c0 = false      -- first following character is outside the class
         | [] => False) ∧
@@ -39,11 +45,13 @@ def ValueOK : URegex → List Char → List Char → Prop
         | .exact k => v.length = k)
 
 /-- a user placeholder is usable at this position: it has a regex (declared, or the default
-`.+?` of the path setter), it is filled with a value free of special characters, and value and
-following literal text satisfy `ValueOK` -/
+`.+?` of the path setter) that is `plain` (value-list words without regex metacharacters — typhon
+does not escape them —, well-formed classes), it is filled with a value free of special
+characters, and value and following literal text satisfy `ValueOK` -/
 def UserOK (cfg : Cfg) (ctx : Ctx) (n : String) (ts : List Tok) : Prop :=
   match cfg.regexOf n, ctx.fill.lookup n with
-  | some r, some v => (∀ c ∈ v, special c = false) ∧ ValueOK r v (litPrefix ts)
+  | some r, some v =>
+    r.plain = true ∧ (∀ c ∈ v, special c = false) ∧ ValueOK r v (litPrefix ts) ts.isEmpty
   | _, _ => False
 
 /-- templates of literals, fillable temporal placeholders (fixed width, unrestricted) and user
@@ -56,8 +64,8 @@ def Unambig (cfg : Cfg) (ctx : Ctx) : List Tok → Prop
   | .star :: _ => False
 
 theorem userOK_elim {cfg : Cfg} {ctx : Ctx} {n : String} {ts : List Tok} (h : UserOK cfg ctx n ts) :
-    ∃ r v, cfg.regexOf n = some r ∧ ctx.fill.lookup n = some v ∧
-      (∀ c ∈ v, special c = false) ∧ ValueOK r v (litPrefix ts) := by
+    ∃ r v, cfg.regexOf n = some r ∧ ctx.fill.lookup n = some v ∧ r.plain = true ∧
+      (∀ c ∈ v, special c = false) ∧ ValueOK r v (litPrefix ts) ts.isEmpty := by
   unfold UserOK at h
   cases h1 : cfg.regexOf n with
   | none => simp [h1] at h
@@ -66,7 +74,7 @@ theorem userOK_elim {cfg : Cfg} {ctx : Ctx} {n : String} {ts : List Tok} (h : Us
     | none => simp [h1, h2] at h
     | some v =>
       simp only [h1, h2] at h
-      exact ⟨r, v, rfl, rfl, h.1, h.2⟩
+      exact ⟨r, v, rfl, rfl, h.1, h.2.1, h.2.2⟩
 
 theorem unambig_of_fixed (cfg : Cfg) (ctx : Ctx) :
     ∀ tpl : List Tok, (∀ t ∈ tpl, FixedTok t) → Unambig cfg ctx tpl := by
@@ -258,9 +266,32 @@ theorem char_dead (v : List Char) (c0 : Char) (L' t : List Char) (items : List (
   rw [List.cons_append]
   simp only [List.isPrefixOf, this, Bool.false_and]
 
+/-- a lazy item at the very end of the template: stopping inside `v` leaves a non-empty rest
+that is not a lone newline, which `$` rejects -/
+theorem end_dead (v : List Char) (hnl : ∀ c ∈ v, c ≠ '\n') (k : Nat) (hk : k < v.length) :
+    matchItems [] ((v ++ ([] ++ [])).drop k) = none := by
+  simp only [List.append_nil]
+  have hne : v[k] ≠ '\n' := hnl _ (List.getElem_mem hk)
+  have hd : List.drop k v = v[k] :: List.drop (k + 1) v := List.drop_eq_getElem_cons hk
+  have h1 : List.drop k v ≠ [] := by intro h; rw [hd] at h; exact List.cons_ne_nil _ _ h
+  have h2 : List.drop k v ≠ ['\n'] := by
+    intro h; rw [hd] at h; simp only [List.cons.injEq] at h; exact hne h.1
+  simp only [matchItems, h1, h2, or_self, ↓reduceIte]
+
+theorem lazy_dead (v L t : List Char) (items : List (Item × Option Key)) (atEnd : Bool)
+    (hnl : ∀ c ∈ v, c ≠ '\n') (hl : LazyOK v L atEnd)
+    (hfail : ∀ str, L.isPrefixOf str = false → matchItems items str = none)
+    (hend : atEnd = true → items = [] ∧ L = [] ∧ t = []) (k : Nat) (hk : k < v.length) :
+    matchItems items ((v ++ (L ++ t)).drop k) = none := by
+  rcases hl with hne | he
+  · exact noEarly_dead v L t items hfail hne k hk
+  · obtain ⟨rfl, rfl, rfl⟩ := hend he
+    exact end_dead v hnl k hk
+
 theorem reaches_user (r : URegex) (v L t : List Char) (items : List (Item × Option Key))
-    (hok : ValueOK r v L)
-    (hfail : ∀ str, L.isPrefixOf str = false → matchItems items str = none) :
+    (atEnd : Bool) (hok : ValueOK r v L atEnd)
+    (hfail : ∀ str, L.isPrefixOf str = false → matchItems items str = none)
+    (hend : atEnd = true → items = [] ∧ L = [] ∧ t = []) :
     Reaches r.item (v ++ (L ++ t)) v.length items := by
   intro F hF res hres
   cases r with
@@ -290,13 +321,13 @@ theorem reaches_user (r : URegex) (v L t : List Char) (items : List (Item × Opt
     simp only [URegex.item, cands]
     have hK := takeWhile_length_ge (fun c => c ≠ '\n') v (L ++ t) (by simpa using hnl)
     exact findSome_range' F res v.length _ 1 h1 (by omega)
-      (fun k _ hk => hF k (by omega) (noEarly_dead v L t items hfail hne k hk)) hres
+      (fun k _ hk => hF k (by omega) (lazy_dead v L t items atEnd hnl hne hfail hend k hk)) hres
   | lazyStar =>
     obtain ⟨hnl, hne⟩ := hok
     simp only [URegex.item, cands]
     have hK := takeWhile_length_ge (fun c => c ≠ '\n') v (L ++ t) (by simpa using hnl)
     exact findSome_range' F res v.length _ 0 (Nat.zero_le _) (by omega)
-      (fun k _ hk => hF k (by omega) (noEarly_dead v L t items hfail hne k hk)) hres
+      (fun k _ hk => hF k (by omega) (lazy_dead v L t items atEnd hnl hne hfail hend k hk)) hres
   | cls rs q =>
     obtain ⟨hin, hL, hq⟩ := hok
     cases L with
@@ -427,30 +458,46 @@ theorem compile_match_unambig (cfg : Cfg) (ctx : Ctx) (hs : GoodTime ctx.s) (he 
             · exact h5 x hx
       | user n =>
         obtain ⟨huser, hts⟩ := hu
-        obtain ⟨r, v, hreg, hfill, hvs, hok⟩ := userOK_elim huser
+        obtain ⟨r, v, hreg, hfill, hplain, hvs, hok⟩ := userOK_elim huser
         have hpiece : piece cfg ctx (.ph (.user n)) = .ok v := by
           simp only [piece, hfill]
         have hstep : ∀ (key : Option Key) (items : List (Item × Option Key)) (t : List Char)
             (caps : Caps),
             (∀ str, (litPrefix ts).isPrefixOf str = false → matchItems items str = none) →
+            (ts.isEmpty = true → items = [] ∧ litPrefix ts = [] ∧ t = []) →
             matchItems items (litPrefix ts ++ t) = some caps →
             matchItems ((r.item, key) :: items) (v ++ (litPrefix ts ++ t)) =
               some (match key with
                 | some k => (k, v) :: caps
                 | none => caps) := by
-          intro key items t caps hfail hr
+          intro key items t caps hfail hend hr
           have := matchItems_of_reaches r.item key items (v ++ (litPrefix ts ++ t)) v.length caps
-            (reaches_user r v (litPrefix ts) t items hok hfail) (by simpa using hr)
+            (reaches_user r v (litPrefix ts) t items ts.isEmpty hok hfail hend) (by simpa using hr)
           simpa using this
+        -- at the very end of the template nothing is compiled and nothing is written after `v`
+        have hendOf : ∀ (seen' : List Key) (items : List (Item × Option Key)) (ps : List (List Char))
+            (t : List Char), compile cfg ts seen' = .ok items → pieces cfg ctx ts = .ok ps →
+            ps.flatten = litPrefix ts ++ t →
+            ts.isEmpty = true → items = [] ∧ litPrefix ts = [] ∧ t = [] := by
+          intro seen' items ps t hc hp hflat hemp
+          have hts0 : ts = [] := by simpa using hemp
+          subst hts0
+          simp only [compile, Except.ok.injEq] at hc
+          simp only [pieces, Except.ok.injEq] at hp
+          subst hc; subst hp
+          simp [litPrefix] at hflat
+          exact ⟨rfl, rfl, hflat⟩
         by_cases hseen : seen.contains (Key.user n) = true
         · obtain ⟨items, ps, h1, h2, h3, h5, h6, t, hflat⟩ := ih seen hts
           refine ⟨(r.item, none) :: items, v :: ps, ?_, ?_, ?_, ?_, hnil _, ⟨_, by rw [hlp]; rfl⟩⟩
-          · simp only [compile, compileTok, hreg, hseen, h1, ↓reduceIte]
+          · simp only [compile, compileTok, hreg, hplain, hseen, h1, Bool.not_true, Bool.false_eq_true,
+              ↓reduceIte]
           · simp only [pieces, hpiece, h2]
-          · rw [List.flatten_cons, hflat]
+          · have hend := hendOf seen items ps t h1 h2 hflat
+            rw [List.flatten_cons, hflat]
             rw [hflat] at h3
             have hmem : Key.user n ∈ seen := by simpa using hseen
-            simpa [capsOf, hmem] using hstep none items t _ h6 h3
+            simpa [capsOf, hmem] using hstep none items t _ h6 hend h3
           · intro x hx
             simp only [List.flatten_cons, List.mem_append] at hx
             rcases hx with hx | hx
@@ -459,12 +506,14 @@ theorem compile_match_unambig (cfg : Cfg) (ctx : Ctx) (hs : GoodTime ctx.s) (he 
         · obtain ⟨items, ps, h1, h2, h3, h5, h6, t, hflat⟩ := ih (Key.user n :: seen) hts
           refine ⟨(r.item, some (Key.user n)) :: items, v :: ps, ?_, ?_, ?_, ?_, hnil _,
             ⟨_, by rw [hlp]; rfl⟩⟩
-          · simp only [compile, compileTok, hreg, hseen, h1, Bool.false_eq_true, ↓reduceIte]
+          · simp only [compile, compileTok, hreg, hplain, hseen, h1, Bool.not_true, Bool.false_eq_true,
+              ↓reduceIte]
           · simp only [pieces, hpiece, h2]
-          · rw [List.flatten_cons, hflat]
+          · have hend := hendOf (Key.user n :: seen) items ps t h1 h2 hflat
+            rw [List.flatten_cons, hflat]
             rw [hflat] at h3
             have hmem : Key.user n ∉ seen := by simpa using hseen
-            simpa [capsOf, hmem, keyStr, hfill] using hstep (some (Key.user n)) items t _ h6 h3
+            simpa [capsOf, hmem, keyStr, hfill] using hstep (some (Key.user n)) items t _ h6 hend h3
           · intro x hx
             simp only [List.flatten_cons, List.mem_append] at hx
             rcases hx with hx | hx
